@@ -118,6 +118,44 @@ def main() -> int:
         props = a[2:] or [sid.split("-")[0]]
         run(sid, props, extra)
         return 0
+    if a[0] == "matrix":
+        # every stored mutant against every registered check (quick tier), N mutants in parallel; writes seeded/MATRIX.json
+        import concurrent.futures as cf
+
+        checks = [c["property_id"] for c in json.load(open(os.path.join(VERIF, "MANIFEST.json")))["checks"]]
+        sids = [s for s in sorted(os.listdir(SEEDED)) if os.path.isdir(os.path.join(SEEDED, s))]
+        only = [x for x in a[1:] if not x.startswith("-")]
+        if only:
+            sids = [s for s in sids if s in only]
+
+        def one(sid):
+            patch = os.path.join(SEEDED, sid, "patch.diff")
+            d = scratch(patch)
+            row = {}
+            try:
+                for p in checks:
+                    e = dict(os.environ)
+                    e["VERIF_REPO"] = d + "/r"
+                    e["VERIF_BUDGET_S"] = "25"
+                    try:
+                        cp = subprocess.run([os.path.join(VERIF, "check"), p, "--no-evidence"], cwd=VERIF, env=e, capture_output=True, text=True, timeout=900)
+                        row[p] = cp.returncode
+                    except subprocess.TimeoutExpired:
+                        row[p] = "timeout"
+            finally:
+                drop(d)
+            print(sid, {k: v for k, v in row.items() if v != 0}, flush=True)
+            return sid, row
+
+        out = {}
+        with cf.ThreadPoolExecutor(max_workers=8) as ex:
+            for sid, row in ex.map(one, sids):
+                out[sid] = row
+        path = os.path.join(SEEDED, "MATRIX.json")
+        old = json.load(open(path)) if os.path.exists(path) else {}
+        old.update(out)
+        json.dump(old, open(path, "w"), indent=1, sort_keys=True)
+        return 0
     if a[0] == "runall":
         extra = a[1:]
         results = {}
